@@ -26,12 +26,16 @@ RULE = (
     "(set-memory-space makes them), mode explicit has both written out. Pipeline: [alloc-to-global,] set-memory-space, "
     "realize-memref-casts [, clear-memory-space]. The input program (casts = aliases) and the output program (allocs + "
     "memref.copy) are executed on the symbolic buffer machine (vlib/machine_c12.py) and compared: same tagged-op sequence, same "
-    "terms read by every op, same final contents of arguments, globals and returned buffers. Constants: transform_constant "
-    "and the ApplyLayoutCast{ArithConstant,MemrefGlobal,SubviewGlobal} patterns are driven through the real pass on a "
-    "constant/global + layout_cast + consumer module for every nesting order of every tile split (exhaustive for <= 4 strides "
-    "over a list of shapes, sampled beyond), widths 8/16/32, and decoded with the C10 reference address function. "
-    "Non-trivial: program with a cast chain >= 2, or a cast value used by a reader and a writer, or (implicit mode) a buffer "
-    "shared by >= 2 ops; constant whose target layout is not row-major and was really re-laid-out."
+    "terms read by every op, same final contents of arguments, globals and returned buffers; SSA dominance of both pass outputs "
+    "is checked by an own walk. Constants: transform_constant is called directly (memref- and tensor-typed source) and the "
+    "ApplyLayoutCast{ArithConstant,MemrefGlobal,SubviewGlobal,MemrefAlloc} patterns are driven through the real pass on a "
+    "constant/global(+tile subview)/alloc + layout_cast + consumer module, for every nesting order of every tile split "
+    "(exhaustive for <= 4 strides over a list of shapes, sampled up to 9 strides / rank 3 / unit bounds with arbitrary steps), "
+    "widths 8/16/32; the new bytes are decoded with the C10 reference address function; for the subview pattern the tile "
+    "layout must be the global's new layout restricted to the tile. transpose_tuple and the whole RemoveTransposeConstants "
+    "pattern: all shapes 1..12 x 1..12. Boundaries: function type, block arguments and returned types before and after "
+    "clear-memory-space. Non-trivial: explicit program with a cast chain >= 2 or a cast value used by a reader and a writer; "
+    "implicit program with >= 2 ops; constant whose target layout is not row-major and was really re-laid-out (no copy left)."
 )
 ASSUMPTIONS = [
     "xDSL 0.70 compatibility shim (vlib/compat.py)",
@@ -80,8 +84,6 @@ def _run(mod, name):
 
 
 def memspace(t):
-    from xdsl.dialects import builtin
-
     ms = getattr(t, "memory_space", None)
     if ms is None or isinstance(ms, builtin.NoneAttr):
         return None
@@ -89,8 +91,6 @@ def memspace(t):
 
 
 def is_memref(t):
-    from xdsl.dialects import builtin
-
     return isinstance(t, builtin.MemRefType)
 
 
@@ -110,7 +110,12 @@ class Case:
             self.dom_mid = dominance_errors(self.mid)
             self.n_root_allocs = sum(1 for op in self.mid.walk() if op.name == "memref.alloc")
             self.out = self.mid.clone()
-            _run(self.out, "realize-memref-casts")
+            try:
+                _run(self.out, "realize-memref-casts")
+            except (PassCrash, Reject):
+                if not self.dom_mid:
+                    raise
+                self.out = self.mid  # the input of realize-memref-casts was already broken; reported as such by dataflow
         self.dom = dominance_errors(self.out)
 
     def shown(self):
@@ -142,9 +147,9 @@ class Case:
         return out
 
     # -------------------------------------------------------------- oracle 2
-    def loop_copy_site(self):
-        """Structural feature: some cast value (after set-memory-space) has its first reading user or its last writing user
-        inside an scf.for nested below the cast's own block, and another user outside that loop."""
+    def _cast_users(self):
+        """For every cast value (after set-memory-space) with non-cast users: the users in walk order of the cast's block as
+        (position, user op, op of the cast's block that contains it, reads, writes)."""
         for op in self.mid.walk():
             if op.name not in CASTS or not op.results[0].uses:
                 continue
@@ -167,11 +172,36 @@ class Case:
                     rd, wr = True, True
                 users.append((order[uo], uo, top, rd, wr))
             users.sort(key=lambda x: x[0])
+            if users:
+                yield users
+
+    def loop_copy_site(self):
+        """Structural feature: some cast value has its first reading user or its last writing user inside an scf.for nested
+        below the cast's own block, and another user outside that loop."""
+        for users in self._cast_users():
             rds = [x for x in users if x[3]]
             wrs = [x for x in users if x[4]]
             for site in ([rds[0]] if rds else []) + ([wrs[-1]] if wrs else []):
                 if site[2] is not site[1] and any(x[2] is not site[2] for x in users):
                     return True
+        return False
+
+    def writer_before_first_reader(self):
+        """Structural feature: some cast value is written by a user that runs before its first reading user (an earlier op, or
+        a later op of a loop around the first reader) while its last writing user is not before the first reader, so
+        the copy-in placed in front of the first reader is not preceded by a copy-out."""
+        for users in self._cast_users():
+            rds = [x for x in users if x[3]]
+            wrs = [x for x in users if x[4]]
+            if not rds or not wrs:
+                continue
+            first = rds[0]
+            if wrs[-1][0] < first[0]:
+                continue
+            if any(w[0] < first[0] for w in wrs):
+                return True
+            if first[2] is not first[1] and any(w[2] is first[2] for w in wrs) and wrs[-1][2] is not first[2]:
+                return True  # back edge: a writer inside the loop statement that holds the first reader, copy-out after it
         return False
 
     def global_transformed_twice(self):
@@ -214,9 +244,13 @@ class Case:
                 self.stats["events"] += len(ref.m.trace)
                 self.stats["poison"] |= any(terms.is_tainted(t) for e in ref.m.trace for rd in e[2] for t in rd)
                 self.stats["trips"] += trips
+            missing = any(k_ == "get_global-of-missing-symbol" for k_, _ in mis)
             for kind, det in mis:
                 sig = "dataflow:" + kind
-                if kind in DATA_KINDS and out is not None and out.m.clobbers:
+                if kind in DATA_KINDS and missing:
+                    # what is read through the dangling memref.get_global is undefined; the cause is reported once
+                    continue
+                if kind in DATA_KINDS and out is not None and out.m.clobbers and self.writer_before_first_reader():
                     sig = "dataflow:copy-in-overwrites-what-an-earlier-writer-left-in-the-cast-buffer"
                 elif kind in DATA_KINDS and self.global_transformed_twice() and "val:" in str(det.get("expected")) and "val:" in str(det.get("got")):
                     sig = "dataflow:initialised-global-is-re-laid-out-more-than-once"
@@ -265,25 +299,40 @@ class Case:
         return bad
 
     def after_clear(self):
+        """Boundary types after clear-memory-space. The types are inspected BEFORE the module is verified, so a space left on
+        the signature is reported as such and not as the verifier error it also causes."""
         from xdsl.dialects import func
 
         mod = self.out.clone()
-        _run(mod, "clear-memory-space")
+        try:
+            with time_limit(20):
+                run_pass(mod, "clear-memory-space")
+        except PassTimeout:
+            raise Reject("clear-memory-space: no result within 20 s")
+        except Exception as e:
+            raise PassCrash("clear-memory-space", e)
         bad = []
         for op in mod.walk():
             if isinstance(op, func.FuncOp):
-                ts = list(op.function_type.inputs) + list(op.function_type.outputs)
+                ts = [("signature", t) for t in list(op.function_type.inputs) + list(op.function_type.outputs)]
                 if op.body.blocks:
-                    ts += [a.type for a in op.body.blocks[0].args]
+                    ts += [("block-argument", a.type) for a in op.body.blocks[0].args]
                     for o in op.body.walk():
                         if isinstance(o, func.ReturnOp):
-                            ts += [x.type for x in o.operands]
-                for t in ts:
+                            ts += [("returned-value", x.type) for x in o.operands]
+                for where, t in ts:
                     if is_memref(t) and memspace(t) is not None:
-                        bad.append(dict(kind="memory-space-left-on-boundary", type=str(t)))
-            for v in list(op.operands) + list(op.results):
-                if is_memref(v.type) and memspace(v.type) is not None:
-                    bad.append(dict(kind="memory-space-left-on-value", op=op.name, type=str(v.type)))
+                        bad.append(dict(kind="memory-space-left-on-" + where, type=str(t)))
+        if not bad:
+            for op in mod.walk():
+                for v in list(op.operands) + list(op.results):
+                    if is_memref(v.type) and memspace(v.type) is not None:
+                        bad.append(dict(kind="memory-space-left-on-value", op=op.name, type=str(v.type)))
+        if not bad:
+            try:
+                mod.verify()
+            except Exception as e:
+                raise PassCrash("clear-memory-space:verify", e)
         return bad, mod
 
 
@@ -391,9 +440,15 @@ def _const_module(r, layout, shape, data):
         return "\n".join(["builtin.module {", head,
                           f'    %k = "arith.constant"() <{{value = {G.dense_text(data, shape)} : {tile_t}}}> : () -> {tile_t}',
                           f'    %c = "snax.layout_cast"(%k) : ({tile_t}) -> {dst_t}', use, tail]), shape, None
-    if kind == "global":
-        g = (f'  "memref.global"() <{{sym_name = "g", type = {G.mtype(shape, elt)}, initial_value = {G.dense_text(data, shape)} : '
-             f'tensor<{"x".join(map(str, shape))}xi{elt}>, sym_visibility = "private", constant, alignment = 64 : i64}}> : () -> ()')
+    if kind == "alloc":
+        return "\n".join(["builtin.module {", head,
+                          f'    %k = "memref.alloc"() <{{operandSegmentSizes = array<i32: 0, 0>, alignment = 64 : i64}}> : () -> {tile_t}',
+                          f'    %c = "snax.layout_cast"(%k) : ({tile_t}) -> {dst_t}', use, tail]), shape, None
+    if kind in ("global", "global_uninit"):
+        iv = (f'initial_value = {G.dense_text(data, shape)} : tensor<{"x".join(map(str, shape))}xi{elt}>, constant' if kind == "global"
+              else "initial_value")
+        g = (f'  "memref.global"() <{{sym_name = "g", type = {G.mtype(shape, elt)}, {iv}, '
+             f'sym_visibility = "private", alignment = 64 : i64}}> : () -> ()')
         return "\n".join(["builtin.module {", g, head,
                           f'    %k = "memref.get_global"() <{{name = @g}}> : () -> {tile_t}',
                           f'    %c = "snax.layout_cast"(%k) : ({tile_t}) -> {dst_t}', use, tail]), shape, None
@@ -488,6 +543,10 @@ def prop_constants(r):
             raise Violation(f"constants:{kind}:pass-raises:{type(e.exc).__name__}", dict(layout=G.tsl_text(layout), error=str(e)[:300], before=text))
     shown = dict(before=text, after=to_text(out))
     transformed = not any(op.name == "memref.copy" for op in out.walk())
+    t0 = next(op for op in orig.walk() if op.name == "test.op").operands[0].type
+    t1 = next(op for op in out.walk() if op.name == "test.op").operands[0].type
+    if t0 != t1:
+        raise Violation(f"constants:{kind}:consumer-sees-another-type-than-the-cast-promised", dict(promised=str(t0), got=str(t1), **shown))
     terms = M.Terms()
     ref = M.run(orig, "main", terms, [])
     try:
@@ -583,15 +642,15 @@ def _prog_no_const(tier):
 
 
 SUBS = [
-    Sub("locality", lambda tier: G.program(tier), prop_locality, budget=dict(quick=500, thorough=15000), floor=dict(quick=70, thorough=2000),
+    Sub("locality", lambda tier: G.program(tier), prop_locality, budget=dict(quick=500, thorough=8000), floor=dict(quick=70, thorough=1100),
         nontrivial_rule="at least one linalg.generic/dart.operation; explicit mode: chain >= 2 or cast read and written; implicit mode: >= 2 ops"),
-    Sub("dataflow", lambda tier: G.program(tier), prop_dataflow, budget=dict(quick=2000, thorough=60000), floor=dict(quick=250, thorough=8000),
+    Sub("dataflow", lambda tier: G.program(tier), prop_dataflow, budget=dict(quick=2000, thorough=40000), floor=dict(quick=230, thorough=4500),
         nontrivial_rule="as locality, at least one tagged op executed, no mismatch of any kind in the case"),
-    Sub("constants", lambda tier: G.constant_case(tier), prop_constants, budget=dict(quick=2500, thorough=60000),
-        exhaustive=G.constant_exhaustive, floor=dict(quick=1500, thorough=10000),
+    Sub("constants", lambda tier: G.constant_case(tier), prop_constants, budget=dict(quick=2500, thorough=40000),
+        exhaustive=G.constant_exhaustive, floor=dict(quick=600, thorough=8000),
         nontrivial_rule="constant/global really re-laid-out (no copy left) and the target layout is not row-major"),
     Sub("transpose", lambda tier: st.nothing(), prop_transpose, budget=dict(quick=0, thorough=0), exhaustive=transpose_exhaustive,
-        exhaustive_only=True, floor=dict(quick=200, thorough=200), nontrivial_rule="both dimensions > 1"),
-    Sub("boundaries", _prog_no_const, prop_boundaries, budget=dict(quick=500, thorough=15000), floor=dict(quick=80, thorough=2500),
+        exhaustive_only=True, floor=dict(quick=60, thorough=60), nontrivial_rule="both dimensions > 1"),
+    Sub("boundaries", _prog_no_const, prop_boundaries, budget=dict(quick=500, thorough=8000), floor=dict(quick=80, thorough=1300),
         nontrivial_rule="public function with at least one memref argument or result"),
 ]
